@@ -11,7 +11,7 @@ import (
 // C12 / C13 — rules on top of the goroutine-sharing engine (par_engine.go).
 
 func init() {
-	Register(&Rule{ID: "R-PAR-1", Props: []string{"C13", "C12", "C03", "C04", "C17", "C15", "C02", "C05"}, Floor: 25,
+	Register(&Rule{ID: "R-PAR-1", Props: []string{"C13", "C12", "C03", "C04", "C17", "C15", "C02", "C05", "C19"}, Floor: 25,
 		Doc:      "lockset consistency: in every concurrent region of lib/query (operands of `go`, callbacks handed to the task runners) each write to memory reachable from a shared root is index-partitioned by the task index, or every conflicting access in a concurrently running region holds a common mutex; sync/atomic/channel/sync.Pool operations are exempt",
 		Controls: []string{"CtlSharedCounterRace", "ctlBox).set"},
 		Run:      rulePar1})
